@@ -47,7 +47,7 @@ type C07Sc struct {
 	Evs   []C07Ev
 }
 
-var c07Variants = []string{"correct", "correct", "correct-error", "wrong-port", "wrong-port-low-bit", "wrong-ip", "mapped", "t-inc", "t-prefix", "t-ext", "t-empty", "t-other", "t-other", "dup", "dup", "query-same-t", "overlong-t"}
+var c07Variants = []string{"correct", "correct", "correct-error", "wrong-port", "wrong-port-low-bit", "port-digit-to-t", "t-digit-to-port", "wrong-ip", "mapped", "t-inc", "t-prefix", "t-ext", "t-empty", "t-other", "t-other", "dup", "dup", "query-same-t", "overlong-t"}
 
 func genC07(t *rapid.T) C07Sc {
 	sc := C07Sc{Dual: rapid.Bool().Draw(t, "dual")}
@@ -415,6 +415,21 @@ func runC07(sc C07Sc, c *kit.Case) *kit.Violation {
 				from.Port = q.dest.Port ^ 1
 				if from.Port == 0 {
 					from.Port = 2
+				}
+			case "port-digit-to-t":
+				// the last decimal digit of the port moved in front of the transaction ID: "ip:688" + "1…"
+				// reads like "ip:6881" + "…" to anything that glues address and ID together
+				t = append([]byte{byte('0' + q.dest.Port%10)}, t...)
+				from.Port = q.dest.Port / 10
+				if from.Port == 0 {
+					from.Port = 7
+				}
+			case "t-digit-to-port":
+				if len(t) > 0 && t[0] >= '0' && t[0] <= '9' && q.dest.Port*10+int(t[0]-'0') <= 65535 {
+					from.Port = q.dest.Port*10 + int(t[0]-'0')
+					t = t[1:]
+				} else {
+					from.Port = 1 + q.dest.Port%65535
 				}
 			case "wrong-ip":
 				from.IP[len(from.IP)-1] ^= 3
